@@ -163,10 +163,11 @@ def run(R, tier, seed):
     ev = dict(property_id='C20', tier=tier, seed=seed, level='exploration', coverage=cov,
               assumptions=[
                   "a process forked from the zygote (droop imported, no Election ever built) is 'a fresh process'",
-                  "options are handed to Election() as a fresh dict per operation: leaks through a caller-owned, "
-                  "reused options dict are excluded on purpose",
+                  "options are handed to Election() as a fresh dict per operation, except in batch sessions where one dict "
+                  "object is shared on purpose; reusing one Options object is excluded",
                   "a predecessor that raises is logged and skipped; only the target's bytes are compared",
-                  "histories that need a failed construction or count are reported as NOTE, not as a verdict"],
+                  "a predecessor that the package itself refuses (usage error, failed assertion) is part of the history; "
+                  "a divergence that needs one is a violation like any other"],
               wall_s=round(wall, 2), violations=nviol)
     core.write_evidence('C20', ev)
     print("C20 %s: %d sessions (%s), grid %dx%dx%d, %d distinct stale-state keys, %d global states, "
